@@ -322,6 +322,7 @@ Proof.
   - apply on_tab_inv; [assumption|]. intros t0 T. apply add_factor_ok. assumption.
   - apply on_tab_inv; [assumption|]. intros t0 T. apply add_domain_ok. assumption.
   - apply on_tab_inv; [assumption|]. intros t0 T. apply new_finite_factor_ok. assumption.
+  - apply on_tab_inv; [assumption|]. intros t0 T. apply upd_weights_ok. assumption.
   - (* EqOp *)
     destruct (nth_error (objs s) h1), (nth_error (objs s) h2); exact I.
 Qed.
